@@ -164,6 +164,10 @@ def judge(ctx, case, r, prefix="C08"):
             # every string field filled to its width (no NUL) and the file size is also a multiple of
             # the other layout's record size: the scoring heuristic cannot tell them apart
             sig = "%s|wrong-layout-chosen|full-width-fields-and-size-divisible-by-both" % prefix
+        elif other is not None and fsz % other.size == 0 and fsz % lay.size == 0 and {lay.name, other.name} == {"Fs_Netbsd_x8632_Utmpx", "Fs_Netbsd_x8664_Utmpx"}:
+            # NetBSD utmpx, 516-byte (x86-32) vs 520-byte (x86-64) records, file size a multiple of both (130 x 516 = 129 x 520):
+            # the score is the best of the first five records, record one is aligned in both readings and scores the same
+            sig = "%s|wrong-layout-chosen|netbsd-utmpx-32-vs-64|size-divisible-by-both-record-sizes" % prefix
         ctx.violation(sig, "file of %d %s records read as %s" % (case["n"], lay.name, got_type), src_dir=case["d"], info=info)
         return
     if got_type is None and case["full"] and not r.out and want:
